@@ -251,7 +251,7 @@ func (g *rgen) leaf(c rctx) *Node {
 	g.budget--
 	inGen := c.fn > 0
 	for {
-		switch g.pick(6, 2, 2, 1, 1, 1, 1, 3, 2, 3) {
+		switch g.pick(6, 2, 2, 1, 1, 1, 1, 3, 2, 3, 2) {
 		case 0:
 			return lg()
 		case 1:
@@ -279,6 +279,12 @@ func (g *rgen) leaf(c rctx) *Node {
 			if inGen {
 				return &Node{Kind: YieldStar, Iter: g.iter(c, false)}
 			}
+		case 10:
+			n := &Node{Kind: GoForOf, Iter: g.iter(c, false)}
+			if g.r.Intn(2) == 0 {
+				n.Op, n.At = 1+g.r.Intn(4), 1+g.r.Intn(3)
+			}
+			return n
 		case 9:
 			if len(c.drivers) > 0 {
 				return &Node{Kind: GenOp, Var: c.drivers[g.r.Intn(len(c.drivers))], Op: 0}
@@ -636,6 +642,12 @@ func Variants(p *Program) []Variant {
 						}
 						iv("Pairs", pv, "map-entry-kind", append([]string{RForOf}, thr...))
 					}
+				case GoForOf:
+					for j := 1; j <= n.Iter.N; j++ {
+						for op := 1; op <= 4; op++ {
+							iv("GoOp", op*16+j, [...]string{"", "go-step-stops", "go-step-throws", "go-step-throws", "go-step-throws"}[op], append([]string{RForOf}, thr...))
+						}
+					}
 				case Destruct:
 					if !n.Decl {
 						for j := 1; j <= n.NElems; j++ {
@@ -715,6 +727,8 @@ func Apply(p *Program, v Variant) (*Program, *Node) {
 					n.At = v.Value
 				case "Pairs":
 					n.Iter.Pairs = v.Value != 0
+				case "GoOp":
+					n.Op, n.At = v.Value/16, v.Value%16
 				case "Op":
 					n.Op = v.Value
 				}
